@@ -119,6 +119,8 @@ def machines():
 			except Exception as exc:
 				if REC.cur_line is not None:
 					REC.start[REC.cur_line] = classify(exc)
+				if getattr(self, 'line_end', b'\r\n') == b'\n':
+					REC.lf_mode = True
 				raise
 			if getattr(self, 'line_end', b'\r\n') == b'\n':
 				REC.lf_mode = True
@@ -326,3 +328,10 @@ def coq_parse_case(kind, frags, o):
 	nfed = len(o['calls'])
 	return 'CParse %s %s %s %s %s' % ('Server' if kind == 'server' else 'Client', coq_tables(o['tables']),
 		L([X(f) for f in frags[:nfed]], 'bytes'), L(calls, 'callobs'), final)
+
+
+def coq_quiet_case(kind, frags, o):
+	"""did the implementation use one of its buffer-dependent shortcuts in this run? (model: quiet_run)"""
+	nfed = len(o['calls'])
+	return 'CQuiet %s %s %s %s' % ('Server' if kind == 'server' else 'Client', coq_tables(o['tables']),
+		L([X(f) for f in frags[:nfed]], 'bytes'), B(not (o['lf_mode'] or o['raised_411'])))
